@@ -1824,3 +1824,108 @@ func (iv *Inv) returnsIndexOrMinusOne(f *ssa.Function, depth int) bool {
 	}
 	return true
 }
+
+// ---- thorough tier: discovery of unclassified callees ----
+
+// reviewedSafe lists dependency functions that occur on the analysed trees and were reviewed not to panic
+// on the argument types they receive there (beyond what the inventory classes cover). Package-level
+// patterns are used for packages whose functions are total on valid Go values.
+var reviewedSafePrefixes = []string{
+	"fmt.", "strconv.", "strings.", "bytes.", "errors.", "sort.", "unicode.", "math.", "encoding/hex.", "encoding/base64.", "encoding/json.", "crypto/sha256.",
+	"crypto/x509.", "encoding/pem.", "crypto/rand.Read",
+	"time.Time.", "time.Duration.", "time.Now", "time.Unix", "time.Since",
+	"builtin.len", "builtin.append", "builtin.cap", "builtin.copy", "builtin.delete", "builtin.make", "builtin.new", "builtin.print",
+	"cosmossdk.io/errors.", "github.com/cosmos/cosmos-sdk/types/errors.", "google.golang.org/grpc/status.", "error.Error",
+	"github.com/cosmos/cosmos-sdk/telemetry.", "github.com/armon/go-metrics.",
+	"github.com/tendermint/tendermint/libs/log.Logger.",
+	"github.com/cosmos/cosmos-sdk/types.Context.", "github.com/cosmos/cosmos-sdk/types.UnwrapSDKContext", "github.com/cosmos/cosmos-sdk/types.WrapSDKContext",
+	"github.com/cosmos/cosmos-sdk/types.EventManager.", "github.com/cosmos/cosmos-sdk/types.Iterator.", "github.com/cosmos/cosmos-sdk/types.KVStorePrefixIterator",
+	"github.com/cosmos/cosmos-sdk/store/prefix.NewStore", "github.com/cosmos/cosmos-sdk/store/prefix.Store.Get", "github.com/cosmos/cosmos-sdk/store/prefix.Store.Has", "github.com/cosmos/cosmos-sdk/store/prefix.Store.Delete", "github.com/cosmos/cosmos-sdk/store/prefix.Store.Iterator",
+	"github.com/cosmos/cosmos-sdk/types.KVStore.Get", "github.com/cosmos/cosmos-sdk/types.KVStore.Has", "github.com/cosmos/cosmos-sdk/types.KVStore.Delete", "github.com/cosmos/cosmos-sdk/types.KVStore.Iterator",
+	"github.com/cosmos/cosmos-sdk/types.AccAddressFromBech32", "github.com/cosmos/cosmos-sdk/types.AccAddress.", "github.com/cosmos/cosmos-sdk/types.ValidateDenom",
+	"github.com/cosmos/cosmos-sdk/types.ZeroInt", "github.com/cosmos/cosmos-sdk/types.NewInt", "github.com/cosmos/cosmos-sdk/types.ZeroDec", "github.com/cosmos/cosmos-sdk/types.NewDec", "github.com/cosmos/cosmos-sdk/types.NewDecFromInt", "github.com/cosmos/cosmos-sdk/types.OneDec",
+	"cosmossdk.io/math.ZeroInt", "cosmossdk.io/math.NewInt",
+	"github.com/cosmos/cosmos-sdk/codec/types.Any.GetCachedValue", "github.com/cosmos/cosmos-sdk/codec/types.Any.GetTypeUrl", "github.com/cosmos/cosmos-sdk/codec/types.NewAnyWithValue",
+	"github.com/cosmos/cosmos-sdk/codec.BinaryCodec.Marshal", "github.com/cosmos/cosmos-sdk/codec.BinaryCodec.Unmarshal", "github.com/cosmos/cosmos-sdk/codec.JSONCodec.UnmarshalInterfaceJSON", "github.com/cosmos/cosmos-sdk/codec.BinaryCodec.MarshalInterface", "github.com/cosmos/cosmos-sdk/codec.BinaryCodec.UnmarshalInterface",
+	"github.com/cosmos/cosmos-sdk/x/auth/vesting/types.", "github.com/cosmos/cosmos-sdk/x/auth/types.AccountI.Get", "github.com/cosmos/cosmos-sdk/x/auth/types.AccountI.SetPubKey", "github.com/cosmos/cosmos-sdk/x/auth/types.ModuleAccountI.GetAddress",
+	"github.com/cosmos/cosmos-sdk/crypto/types.PubKey.String",
+	"encoding/binary.",
+}
+
+// Arithmetic / comparison methods of math.Int, sdk.Dec, Coins and DecCoins that are not inventory classes:
+// they panic only on nil receivers/arguments (C20.nilfield) or on overflow beyond 256/315 bits (assumption).
+var reviewedSafeTypes = []string{"cosmossdk.io/math.Int.", "github.com/cosmos/cosmos-sdk/types.Int.", "github.com/cosmos/cosmos-sdk/types.Dec.", "github.com/cosmos/cosmos-sdk/types.Coins.", "github.com/cosmos/cosmos-sdk/types.DecCoins.", "github.com/cosmos/cosmos-sdk/types.Coin.", "github.com/cosmos/cosmos-sdk/types.DecCoin."}
+
+// keeper interfaces: returns errors, panics only on unregistered module accounts (inventory class bankmodule)
+var reviewedKeeperMethods = map[string]bool{"GetBalance": true, "GetAllBalances": true, "GetSupply": true, "LockedCoins": true, "SpendableCoins": true, "IsSendEnabledCoins": true, "BlockedAddr": true,
+	"GetAccount": true, "GetModuleAccount": true, "NewAccountWithAddress": true, "SetAccount": true, "BondedRatio": true, "GetModuleAddress": true, "HasAccount": true}
+
+// Discover lists every distinct leaf callee on the trees and fails on one that is neither an inventory class
+// nor reviewed (closing the allow-list: "undecided fails").
+func (iv *Inv) Discover(roots []*ssa.Function, rule, label string) {
+	cg := iv.w.CG()
+	reach := cg.Reach(roots)
+	seen := map[string]string{}
+	where := map[string]string{}
+	for f := range reach {
+		if !iv.w.isProdFunc(f) {
+			continue
+		}
+		for _, s := range cg.Sites[f] {
+			if len(s.Callees) > 0 && !s.Invoke {
+				continue
+			}
+			n := callName(s.Common())
+			if s.Invoke {
+				n = typeString(s.RecvType) + "." + s.Method
+				if len(s.Callees) > 0 && strings.HasPrefix(typeString(s.RecvType), modPath) && !strings.Contains(typeString(s.RecvType), "Keeper") {
+					continue // module interface resolved by CHA to module implementations
+				}
+			}
+			if n == "dynamic" {
+				n = "dynamic:" + typeString(s.Common().Value.Type())
+			}
+			if _, ok := seen[n]; ok {
+				continue
+			}
+			where[n] = iv.w.Pos(s.Instr.Pos())
+			if class, _ := iv.classifyCall(s); class != "" {
+				seen[n] = "inventory class " + class
+				continue
+			}
+			verdict := ""
+			for _, p := range reviewedSafePrefixes {
+				if strings.HasPrefix(n, p) {
+					verdict = "reviewed: does not panic on the argument types passed here"
+				}
+			}
+			for _, p := range reviewedSafeTypes {
+				if strings.HasPrefix(n, p) {
+					verdict = "reviewed: value arithmetic/comparison; nil operands are C20.nilfield's obligation, overflow is out of the stated magnitudes"
+				}
+			}
+			if s.Invoke && strings.Contains(typeString(s.RecvType), "Keeper") && reviewedKeeperMethods[s.Method] {
+				verdict = "reviewed: expected-keeper read / write returning an error or a nilable result (C20.nilresult)"
+			}
+			if s.Invoke && strings.HasPrefix(typeString(s.RecvType), modPath) && len(s.Callees) > 0 {
+				verdict = "module interface, implementations are analysed"
+			}
+			if cg.Atom(s) != "" && verdict == "" {
+				verdict = "effect atom " + cg.Atom(s)
+			}
+			seen[n] = verdict
+		}
+	}
+	var names []string
+	for n := range seen {
+		names = append(names, n)
+	}
+	sort.Strings(names)
+	for _, n := range names {
+		if seen[n] == "" {
+			iv.r.Unk(rule, label+": callee "+shortCallee(n), where[n], "a dependency function occurs on the analysed tree that is neither in the panic-capable table nor in the reviewed table: classify it")
+		} else {
+			iv.r.Enum(rule, label+": callee "+shortCallee(n), where[n], seen[n])
+		}
+	}
+}
